@@ -106,3 +106,82 @@ Proof.
     rewrite eff_atol_nonzero; auto. lra. }
   lra.
 Qed.
+
+(* ---- the closed-form path trusts the btype label ---- *)
+From Coq Require Import Permutation.
+Lemma tbu_id d A i j : (i < d)%nat -> (j < d)%nat ->
+  mget RO (transform_by_unitary RO d (mid RO d) A) i j = mget RO A i j.
+Proof.
+  intros Hi Hj. change (toF (transform_by_unitary RO d (mid RO d) A) i j = toF A i j).
+  rewrite (toF_transform d (mid RO d) A i j Hi Hj). unfold conjU.
+  assert (E : feq d (fmul d (fadj (toF (mid RO d))) (fmul d (toF A) (toF (mid RO d)))) (toF A)).
+  { rewrite (toF_mid d), fadj_id, fmul_id_l, fmul_id_r. reflexivity. }
+  apply E; auto.
+Qed.
+
+Definition ggm13_swapped : list (Mat (T:=R)) :=
+  ggm_id RO 13 :: ggm_sym RO 13 (0, 2)%nat :: ggm_sym RO 13 (0, 1)%nat :: skipn 3 (ggm_basis RO 13).
+
+Lemma ggm13_split : ggm_basis RO 13 =
+  ggm_id RO 13 :: ggm_sym RO 13 (0, 1)%nat :: ggm_sym RO 13 (0, 2)%nat :: skipn 3 (ggm_basis RO 13).
+Proof. reflexivity. Qed.
+
+Lemma ggm13_perm : Permutation ggm13_swapped (ggm_basis RO 13).
+Proof.
+  unfold ggm13_swapped. set (rest := skipn 3 (ggm_basis RO 13)).
+  rewrite ggm13_split. fold rest. apply perm_skip, perm_swap.
+Qed.
+Lemma ggm13_len : length ggm13_swapped = 169%nat.
+Proof. rewrite (Permutation_length ggm13_perm). reflexivity. Qed.
+
+Lemma ggm_pairs13_hd : exists r, ggm_pairs 13 = (0, 1)%nat :: r.
+Proof. eexists. reflexivity. Qed.
+
+Lemma sqrt2_facts : sqrt2 RO * sqrt2 RO = 2 /\ sqrt2 RO <> 0.
+Proof.
+  unfold sqrt2, o2; simpl.
+  assert (H : sqrt (1 + 1) * sqrt (1 + 1) = 1 + 1) by (apply sqrt_sqrt; lra).
+  split. lra. intros E. rewrite E in H. lra.
+Qed.
+
+(* the closed-form path is selected by the label alone: on a re-ordered Gell-Mann basis that still
+   carries the label (d = 13 > 12) it does not compute the Liouville representation w.r.t. that basis *)
+Theorem closed_path_trusts_label :
+  Permutation ggm13_swapped (ggm_basis RO 13) /\
+  rget RO (liouville_representation RO 13 true (mid RO 13) ggm13_swapped) 1 1 = 0 /\
+  rget RO (liouville_generic RO 13 (mid RO 13) ggm13_swapped) 1 1 = 1.
+Proof.
+  split. apply ggm13_perm.
+  assert (Hn : (1 < length ggm13_swapped)%nat) by (rewrite ggm13_len; lia).
+  remember (transform_by_unitary RO 13 (mid RO 13) (ggm_sym RO 13 (0, 2)%nat)) as M eqn:HM.
+  assert (EM : nthm (conjugated_basis RO 13 (mid RO 13) ggm13_swapped) 1 = M).
+  { rewrite conjugated_basis_nth by auto. rewrite HM. reflexivity. }
+  assert (M01 : mget RO M 0 1 = 0c).
+  { rewrite HM. rewrite tbu_id by lia. unfold ggm_sym. rewrite mget_mbuild by lia. reflexivity. }
+  assert (M10 : mget RO M 1 0 = 0c).
+  { rewrite HM. rewrite tbu_id by lia. unfold ggm_sym. rewrite mget_mbuild by lia. reflexivity. }
+  assert (M02 : mget RO M 0 2 = cofr RO (inv_sqrt2 RO)).
+  { rewrite HM. rewrite tbu_id by lia. unfold ggm_sym. rewrite mget_mbuild by lia. reflexivity. }
+  assert (M20 : mget RO M 2 0 = cofr RO (inv_sqrt2 RO)).
+  { rewrite HM. rewrite tbu_id by lia. unfold ggm_sym. rewrite mget_mbuild by lia. reflexivity. }
+  split.
+  - unfold liouville_representation. change (true && Nat.ltb ggm_threshold 13) with true. cbv iota.
+    unfold rget, vg, nthv, liouville_closed.
+    rewrite (nth_map_default (A:=Mat (T:=R)) (ggm_expand_re RO 13) _ _ [] [])
+      by (unfold conjugated_basis; rewrite map_length; auto).
+    fold (nthm (conjugated_basis RO 13 (mid RO 13) ggm13_swapped) 1). rewrite EM.
+    unfold ggm_expand_re. destruct ggm_pairs13_hd as [r ->]. unfold vget. simpl nth.
+    rewrite M01, M10. csimp. unfold Rdiv. ring.
+  - unfold rget, vg, nthv, liouville_generic.
+    rewrite (nth_map_default (A:=Mat (T:=R)) (fun M => expand_re RO 13 M ggm13_swapped) _ _ [] [])
+      by (unfold conjugated_basis; rewrite map_length; auto).
+    fold (nthm (conjugated_basis RO 13 (mid RO 13) ggm13_swapped) 1). rewrite EM.
+    unfold vget, expand_re.
+    rewrite (nth_map_default (A:=Mat (T:=R)) (fun Cj => fst (mtrprod RO 13 M Cj)) _ _ [] 0) by auto.
+    change (nth 1 ggm13_swapped []) with (ggm_sym RO 13 (0, 2)%nat).
+    rewrite <- (ggm_sym_coeff 13 M 0 2) by lia. rewrite M02, M20.
+    assert (H1 : sqrt (1 + 1) * sqrt (1 + 1) = 1 + 1) by (apply sqrt_sqrt; lra).
+    assert (H2 : sqrt (1 + 1) <> 0) by (intros E; rewrite E in H1; lra).
+    unfold inv_sqrt2. csimp. set (q := sqrt (1 + 1)) in *.
+    replace ((1 / q + 1 / q) / q) with ((1 + 1) / (q * q)) by (field; auto). rewrite H1. field.
+Qed.
